@@ -258,20 +258,20 @@ TINY_RULES = ['a', 'a:hover', '@media (x:y)']
 TINY_LEAVES = [['decl', 'b', ['c'], []], ['decl', '$v', ['"};"', 'd'], [' ']], ['comment', '/*}{;*/']]
 
 
-def tiny_forests(n, top=True):
-    """all forests with exactly n nodes (top level restricted to >= 1 rule for n >= 1)"""
+def tiny_forests(n):
+    """all forests with exactly n nodes (any mixture of rules, declarations and comments at every level)"""
     if n == 0:
         yield []
         return
     # first node is a leaf
     for leaf in TINY_LEAVES:
-        for rest in tiny_forests(n - 1, top):
+        for rest in tiny_forests(n - 1):
             yield [leaf] + rest
     # first node is a rule with k nodes inside
     for sel in TINY_RULES:
         for k in range(0, n):
-            for body in tiny_forests(k, False):
-                for rest in tiny_forests(n - 1 - k, top):
+            for body in tiny_forests(k):
+                for rest in tiny_forests(n - 1 - k):
                     yield [['rule', sel, body]] + rest
 
 
